@@ -14,9 +14,10 @@ def run(spec, ctx):
     from vmon.gen import dataset as gd
     from vmon.httpsrv import RangeServer
     from vmon.model import dscmp
-    from vmon.httpsrv import relax_timeouts, is_transport_timeout
+    from vmon.httpsrv import relax_timeouts, is_transport_timeout, FakeEndpoint
     relax_timeouts()
     srv = RangeServer()
+    fake = FakeEndpoint()
     orig_cls = http_utils.HTTPFile
     tmp = boot.scratch()
     try:
@@ -27,7 +28,9 @@ def run(spec, ctx):
             comp = None if rng.random() < 0.5 else {"compression": None}
             gd.write_model(path, model, compression=comp)
             blob = path.read_bytes()
-            url = srv.put(f"/bucket/e2e_{idx}.rtdc", blob)
+            # two out of three cases use the socket-free transport (same HTTP semantics)
+            ep = srv if idx % 3 == 0 else fake
+            url = ep.put(f"/bucket/e2e_{idx}.rtdc", blob)
             # at most ~400 chunks per file, so the number of requests stays bounded
             cands = [c for c in [512, 1000, 4096, 2 ** 14, 2 ** 16, 2 ** 18]
                      if len(blob) / c <= 400] or [2 ** 18]
@@ -44,7 +47,7 @@ def run(spec, ctx):
                         ctx.count("skipped_transport_timeout")
                         continue
                     ok_id = True
-                    nreq = len(srv.requests)
+                    nreq = len(ep.requests)
                     evicted = len(dh._fhttp.cache) >= keep
                 ctx.check("http_equals_local", not diffs,
                           lambda: {"file": gd.describe(model), "chunk_size": cs,
@@ -72,3 +75,4 @@ def run(spec, ctx):
             os.unlink(path)
     finally:
         srv.close()
+        fake.close()
